@@ -24,6 +24,9 @@ ANCHORS = ["varintFORAnalyze", "varintFORReadMetadata", "varintPFORComputeThresh
            "varintAdaptiveReadMeta", "varintDictGetStats", "varintBitmapGetStats"]
 
 
+M6_PAIRS = [("varintRLEAnalyze", "varintRLEEncode"), ("varintPFORSize", "varintPFOREncode")]
+
+
 def meta_params(fn):
     out = []
     for k, p in enumerate(fn.params):
@@ -231,6 +234,18 @@ def run(tier):
         run.floor("metadata writer parameters (%s)" % cfg, n, 22)
         run.floor("functions with a checked size field (%s)" % cfg, len(set(cov["M2"])), 8)
         run.floor("functions with a checked count field (%s)" % cfg, len(set(cov["M3"])), 10)
+        # M6: a size reported by an analysis function is made of the same length terms as the cursor advances of the encoder it describes
+        from .. import sizeterms as ST
+        n6 = 0
+        for pred, enc in M6_PAIRS:
+            pt, _ = ST.size_terms(need_fn(mod, pred), mod, "size"); et, _ = ST.size_terms(need_fn(mod, enc), mod, "cursor")
+            if not pt or not et: raise AnalysisBroken("M6: no size terms for %s / %s" % (pred, enc))
+            unc, unexp = ST.match_terms(pt, et, True); n6 += 1
+            pf = mod.fn(pred)
+            run.check(not unc and not unexp, "M6-reported-size-terms-agree", {"analysis": pred, "encoder": enc, "terms": len(et)},
+                      Finding("M6-reported-size-terms-differ", pred, enc, "terms", "the size %s reports is not built from the same length terms as %s's output (%d encoder term(s) unaccounted, %d extra)" % (pred, enc, len(unc), len(unexp)),
+                              loc="%s:%s" % (rel(pf.file), pf.line)))
+        run.floor("analysis/encoder size-term pairs (%s)" % cfg, n6, len(M6_PAIRS))
     controls(run)
     run.coverage.update({"configurations": per,
                          "not_decided": "that minValue is the minimum, that runCount / exceptionCount / totalBits are numerically right (value-level); sizes reported by *Analyze functions vs bytes later written are C03's exact-predictor clause; M4 (header readers parse the writer's layout) is listed separately when built"})
